@@ -173,6 +173,14 @@ def build(seed, tier):
                     kw[f] = r.choice(VALUES) if f != 'where' else r.choice(['3', '10', 'None', "Field(9)"])
             if r.random() < 0.15:
                 kw['fields'] = "{'value': %s, 'extra': 1}" % r.choice(VALUES)
+            if r.random() < 0.12:
+                kw['location'] = r.choice(['4', '12'])
+            if r.random() < 0.1:
+                kw['field_names'] = "['value', 'who', 'where']"
+            if r.random() < 0.1:
+                kw['else_message'] = repr('else text %d' % i)
+            if r.random() < 0.08:
+                kw['justification'] = repr('because %d' % i)
             if r.random() < 0.25:
                 # classes with their own condition ignore `activate` (it only drives the default condition)
                 kw['activate'] = r.choice(['False', 'True', 'False'])
